@@ -17,7 +17,7 @@ from tradingenv.features import Feature
 from tradingenv.library import FeatureSpread
 from tradingenv.broker.fees import BrokerFees
 
-from vf import ep, gen
+from vf import alone, ep, gen
 
 PROP = "C02"
 LEVEL = "exploration"
@@ -36,7 +36,7 @@ RULE = ("Twin runs. Stream S and S' = S with the VALUES (prices, payloads, table
         "event before the end of the episode.")
 ASSUMPTIONS = ["value perturbations only: adding/removing future timestamps legitimately changes `done`"]
 REQUIRED = ["C02:no-lookahead", "C02:next-trades-independent-of-future", "C02:xy-no-lookahead"]
-REQUIRED_CATS = ["xy-rate-off-price-dates", "transmitter-used-before-with-larger-latency", "xy-prefitted-transformer", "custom-events-from-table", "xy-sparse-features", "generic", "xy", "xy-nan-straddles-cut", "xy-row-missing-at-cut", "cut:first", "cut:last", "latency>0", "late-fold", "markov", "warmup"]
+REQUIRED_CATS = ["xy-twin-in-fresh-interpreter", "xy-rate-off-price-dates", "transmitter-used-before-with-larger-latency", "xy-prefitted-transformer", "custom-events-from-table", "xy-sparse-features", "generic", "xy", "xy-nan-straddles-cut", "xy-row-missing-at-cut", "cut:first", "cut:last", "latency>0", "late-fold", "markov", "warmup"]
 TECHNIQUE = "runtime monitoring: twin executions on streams that agree up to the cut, compared call by call on canonical digests"
 LEVEL_TEXT = ("Exploration by twin runs: the same real environment is executed on two inputs that agree on everything stamped <= t; any "
               "difference in an output landing at or before t is a witness of look-ahead. Fixed actions prevent a leak from hiding "
@@ -209,6 +209,34 @@ def generic(ctx):
                   "n_events": len(ev), "perturbed_events": np1, "compared_calls": ncmp}
 
 
+XY_ACTS = [np.array([0.3, -0.2]), np.array([0., 0.5]), np.array([-0.4, 0.1])]
+
+
+def run_xy(X, Y, rate, tf, prefit, tfit, window, sd, n):
+    """One episode of the tabular environment; module-level so that it can also run in a fresh interpreter."""
+    tfm = tf
+    if prefit:
+        # an ALREADY FITTED transformer instance (fitted on data up to tfit) is handed over
+        from sklearn.preprocessing import StandardScaler
+        tfm = StandardScaler().fit(X.loc[:tfit].dropna())
+    env = TradingEnvXY(X.copy(), Y.copy(), transformer=tfm, transformer_end=tfit, window=window, rate=rate.copy(),
+                       steps_delay=sd)
+    out = []
+    o = env.reset()
+    out.append((env.now(), o.tobytes()))
+    done = ep.reset_ended_episode(env)
+    k = 0
+    while not done:
+        if k > n + 2:
+            raise RuntimeError("step cap")
+        o, rw, done, info = env.step(XY_ACTS[k % 3])
+        k += 1
+        out.append((env.now(), o.tobytes(), float(rw).hex(),
+                    tuple((str(t.contract), float(t.quantity).hex(), float(t.bid_price).hex()) for t in info["_rebalancing"].trades),
+                    float(env.broker.net_liquidation_value(False)).hex(), len(env.broker.track_record)))
+    return out
+
+
 def xy(ctx):
     r = ctx.rng
     rng = ctx.nrng
@@ -256,28 +284,12 @@ def xy(ctx):
         ctx.cat("xy-prefitted-transformer")
 
     def run(X, Y, rate):
-        tfm = tf
-        if prefit:
-            # an ALREADY FITTED transformer instance (fitted on data up to tfit) is handed over
-            from sklearn.preprocessing import StandardScaler
-            tfm = StandardScaler().fit(X.loc[:tfit].dropna())
-        env = TradingEnvXY(X.copy(), Y.copy(), transformer=tfm, transformer_end=tfit, window=window, rate=rate.copy(),
-                           steps_delay=sd)
-        out = []
-        o = env.reset()
-        out.append((env.now(), o.tobytes()))
-        done = ep.reset_ended_episode(env)
-        k = 0
-        while not done:
-            if k > n + 2:
-                raise RuntimeError("step cap")
-            o, rw, done, info = env.step(acts[k % 3])
-            k += 1
-            out.append((env.now(), o.tobytes(), float(rw).hex(),
-                        tuple((str(t.contract), float(t.quantity).hex(), float(t.bid_price).hex()) for t in info["_rebalancing"].trades),
-                        float(env.broker.net_liquidation_value(False)).hex(), len(env.broker.track_record)))
-        return out
+        return run_xy(X, Y, rate, tf, prefit, tfit, window, sd, n)
 
+    if ctx.index % 60 == 9:
+        # another tabular environment built earlier in the same process, with the same transformer shortcut but
+        # fitted on other (and later) data, ...
+        TradingEnvXY(X * 3 + 1, Y.copy(), transformer=tf, window=window)
     base = run(X, Y, rate)
     X2, Y2, rate2 = X.copy(), Y.copy(), rate.copy()
     after = X2.index > tcut
@@ -292,7 +304,13 @@ def xy(ctx):
             if xa:
                 X2.iloc[r.choice(xa), r.randrange(3)] = np.nan
             Y2.iloc[r.choice(idx_after), r.randrange(2)] = np.nan
-    pert = run(X2, Y2, rate2)
+    if ctx.index % 60 == 9:
+        # ... and the perturbed twin run ALONE in a fresh interpreter: what the busy process serves up to the cut
+        # must not depend on anything but the data up to the cut - not on what else was built in the process
+        pert = alone.call("c02", "run_xy", X2, Y2, rate2, tf, prefit, tfit, window, sd, n)
+        ctx.cat("xy-twin-in-fresh-interpreter")
+    else:
+        pert = run(X2, Y2, rate2)
     ncmp = 0
     for a, b in zip(base, pert):
         if a[0] <= tcut:
